@@ -87,6 +87,7 @@ type State struct {
 	dead    bool
 	ghostv  map[string]*Term
 	heapAllHavoc int
+	recvd   map[string]bool // channels a value was received from on this path
 }
 
 func (st *State) clone() *State {
@@ -127,6 +128,10 @@ func (st *State) clone() *State {
 	for k, v := range st.ghostv {
 		n.ghostv[k] = v
 	}
+	n.recvd = make(map[string]bool, len(st.recvd))
+	for k, v := range st.recvd {
+		n.recvd[k] = v
+	}
 	n.defers = append([]deferred{}, st.defers...)
 	n.trace = append([]string{}, st.trace...)
 	return n
@@ -135,7 +140,7 @@ func (st *State) clone() *State {
 func newState() *State {
 	return &State{regs: map[ssa.Value]Value{}, origin: map[ssa.Value]*Ptr{}, cells: map[*Cell]Value{},
 		allocOf: map[*ssa.Alloc]*Cell{}, heap: map[string]*Term{}, inLoop: map[*ssa.BasicBlock]bool{},
-		ranges: map[int]*Term{}, held: map[string]bool{}, ghostv: map[string]*Term{}}
+		ranges: map[int]*Term{}, held: map[string]bool{}, ghostv: map[string]*Term{}, recvd: map[string]bool{}}
 }
 
 func (st *State) addLine(l Line) {
